@@ -76,7 +76,8 @@ class Obsolescence(Harness):
             if m in ("add", "extend"): st["other"] = choice(f"o{d}", range(nn))
             steps.append(st); nn += 1
         steps.append({"target": choice("edit_target", range(nn)), "method": choice("edit", EDITING)})
-        return {"data": LoD([[("id", 0), ("k", 1)], [("id", 1), ("k", None)]]), "steps": steps}
+        return {"data": LoD([[("id", 0), ("k", 1)], [("id", 1), ("k", None)]]), "steps": steps,
+                "first_use": choice("first_use", ["named", "slice", "add", "mul", "copy"] if self.depth <= 1 else ["named", "slice"])}
     def regions(self, inp):
         # known finding: the right operand of + / extend is not recorded as a predecessor
         steps = inp["steps"]
@@ -117,6 +118,8 @@ class Obsolescence(Harness):
             cl.append((f"node {i} ({what}) obsolete == {want}", T(flag == want)))
             cl.append((f"node {i}: warning printed exactly once iff obsolete", T(out["warnings_total"][i] == (1 if want else 0))))
             cl.append((f"node {i}: no warning on the second use", T(out["second_use"][i] == 0)))
+            if "first_use" in out and want and out["warnings_total"][i] == 1:
+                pass
         return cl
 
 def harnesses(tier):
